@@ -272,10 +272,12 @@ func RunTransfer(env *Env, progs []SessProg, opts TransferOpts) *RunResult {
 			// client writer (must run first in NO_WAIT mode: the handshake
 			// happens on the first write)
 			firstWriteDone := make(chan struct{})
+			var clientWriterDone atomic.Bool
 			inner.Add(1)
 			go func() {
 				defer inner.Done()
 				runWriter(c, upKey, prog.Up, &sr.Up, bump, abort, firstWriteDone)
+				clientWriterDone.Store(true)
 			}()
 			if env.Cfg.NoWait || env.Cfg.RawClient {
 				// In 0-RTT mode the client writes first, as documented.
@@ -295,7 +297,18 @@ func RunTransfer(env *Env, progs []SessProg, opts TransferOpts) *RunResult {
 			if d := opts.Abandon[i]; d > 0 {
 				sideWait = d + 3*time.Second // it may be gone before the server application ever saw it
 			}
-			sc, err := env.ServerSide(opts.IdxBase+i, sideWait)
+			// a client whose very first write failed will never appear at the
+			// server: do not wait the whole wall budget for it
+			var sc *ServerConn
+			for waited := time.Duration(0); ; waited += 500 * time.Millisecond {
+				sc, err = env.ServerSide(opts.IdxBase+i, 500*time.Millisecond)
+				if err == nil || waited >= sideWait {
+					break
+				}
+				if clientWriterDone.Load() && sr.Up.WriteErr != "" && sr.Up.Written == 0 && waited >= 3*time.Second {
+					break
+				}
+			}
 			if err != nil {
 				sr.OpenErr = "server side: " + err.Error()
 				if opts.Abandon[i] > 0 {
